@@ -18,14 +18,15 @@ import (
 type VerifCalculator struct{ c *historicalUsageCalculator }
 
 // NewCalculatorForVerif builds the calculator as NewCalculator does, with the
-// policy, sample queue and node getter given by the caller.
-func NewCalculatorForVerif(p policy.Interface, f *framework.EventQueueFactory, q *queue.SqQueue, getNode utilnode.ActiveNode) *VerifCalculator {
+// policy, sample queue, node getter and ratio given by the caller.
+func NewCalculatorForVerif(p policy.Interface, f *framework.EventQueueFactory, q *queue.SqQueue, getNode utilnode.ActiveNode, ratio int) *VerifCalculator {
 	return &VerifCalculator{c: &historicalUsageCalculator{
 		Interface:         p,
 		eventQueueFactory: f,
 		queue:             q,
 		resourceTypes:     sets.NewString(),
 		getNodeFunc:       getNode,
+		ratio:             ratio,
 	}}
 }
 
